@@ -300,9 +300,25 @@ def r11_8(prog: Program, rep: Report, rule="R11.8"):
             if T.contains(tm, lambda s: T.is_call_to(s, f"{C.INSP}._hints_from_signature") and s[2] == (obj,)):
                 if any(g == ("param", "exhaustive") and pol for g, pol in p.guards()) or any(T.contains(g, lambda y: y == ("param", "exhaustive")) and pol for g, pol in p.guards()):
                     fallback = True
+    hints_namespace(prog, rep, rule)
     rep.check(uses, rule, gh.qualname, gh.loc, "hints come from typing.get_type_hints(obj) (aliases and string annotations resolved)", "get_type_hints is not built on typing.get_type_hints(obj)", detail="hints-source")
     rep.check(kwonly, rule, gh.qualname, gh.loc, "the dataclass KW_ONLY sentinel is filtered out", "the KW_ONLY sentinel is not filtered: a pseudo-field reaches the graph", detail="kw-only")
     rep.check(fallback, rule, gh.qualname, gh.loc, "signature hints are used only when asked for (exhaustive) and nothing else was found", "the signature fallback is not tied to `exhaustive`", detail="exhaustive")
+
+
+def hints_namespace(prog: Program, rep: Report, rule: str):
+    """typing.get_type_hints(cls) evaluates the string annotations of every class on the MRO in that class's own module;
+    an explicit globalns/localns replaces all of them by one namespace (inherited members resolve against the wrong module)."""
+    gh = prog.function(f"{C.INSP}.get_type_hints")
+    calls = []
+    for p in P.paths_of(prog, gh):
+        for tm in p.all_terms():
+            calls += [s for s in T.walk(tm) if T.is_call_to(s, "typing.get_type_hints")]
+    bad = [c for c in calls if len(c[2]) > 1 or any(k in ("globalns", "localns") and v != ("const", None) for k, v in c[3])]
+    if not calls:
+        rep.undecided(rule, gh.qualname, gh.loc, "no call to typing.get_type_hints found", detail="hints-namespace")
+        return
+    rep.check(not bad, rule, gh.qualname, gh.loc, "string annotations are evaluated per defining class (no explicit namespace is passed to typing.get_type_hints)", "typing.get_type_hints is given an explicit globalns/localns: with one, the annotations of *every* class on the MRO are evaluated in that single namespace, so a member inherited from a base in another module is resolved against the subclass's module (a same-named class there silently replaces the declared one)", detail="hints-namespace")
 
 
 def r11_6(prog: Program, rep: Report):
